@@ -126,7 +126,7 @@ theorem listWF_processHeader (r : Repo) (h : Hdr) (ok : Bool) (hl : ListWF r.are
       rcases List.mem_append.mp hm with hm | hm
       · have := hl.valid bi hm; omega
       · simp only [List.mem_cons, List.not_mem_nil, or_false] at hm; omega
-  | extend pb ph lst w hp hprev hlen ha hb _ =>
+  | extend pb ph lst w hp hprev hlen hbw ha hb _ =>
     rw [ha, hb]
     exact ⟨hl.sorted, by intro bi hm; rw [List.length_set]; exact hl.valid bi hm⟩
 
@@ -205,7 +205,7 @@ theorem heightsSound_processHeader (r : Repo) (h : Hdr) (ok : Bool) (hr : RepoWF
     · simp only [hid, ↓reduceIte] at hg
       obtain ⟨bj, hheld⟩ := hr.heights id x hg
       exact ⟨bj, heldAt_append _ _ _ _ _ hheld⟩
-  | extend pb ph lst w hp hprev hlen ha hb hh =>
+  | extend pb ph lst w hp hprev hlen hbw ha hb hh =>
     intro id x hg
     rw [hh, HMap.get?_set] at hg
     rw [ha]
@@ -223,8 +223,8 @@ theorem heightsSound_processHeader (r : Repo) (h : Hdr) (ok : Bool) (hr : RepoWF
         ⟨r.br pb, _, lst, hbr, hlast, hprev, rfl⟩
       obtain ⟨_, hph⟩ := heldAt_unique r.arena r.branches hr.ids pb pb h.prev _ _ hown hheld2
       refine ⟨pb, _, (r.br pb).headers.length, { hdr := h, work := lst.work + w },
-        by rw [List.getElem?_set_self hlen], by simp, hid.symm, ?_⟩
-      simp only
+        by rw [List.getElem?_set_self hlen], by simp [Branch.pushed], hid.symm, ?_⟩
+      simp only [Branch.pushed]
       rw [← hg, hph]
       omega
     · simp only [hid, ↓reduceIte] at hg
